@@ -44,6 +44,7 @@ type Outcome struct {
 	Trace        []string       `json:"trace,omitempty"`
 	Events       []string       `json:"events,omitempty"`
 	Procs        int            `json:"procs"`
+	Evals        int            `json:"evals,omitempty"` // simulated runs performed by this engine call (default 1)
 	Ops          int            `json:"ops"`
 }
 
